@@ -1,6 +1,7 @@
 package main
 
 import (
+	"go/token"
 	"fmt"
 	"os"
 	"sort"
@@ -858,12 +859,34 @@ func ruleAllElems(c *Ctx) *RuleResult {
 				if ret := blockReturn(bb); ret != nil && errSlot >= 0 && isNilConst(retResults(ret)[errSlot]) {
 					bad = "a success return at " + c.pos(ret.Pos()) + " is inside the loop"
 				}
-				for _, s := range bb.Succs {
-					if s != b && !b.Dominates(s) {
-						bad = "an edge leaves the loop to " + s.String() + " without exhausting it"
+				for si, s := range bb.Succs {
+					leaves := (s != b && !b.Dominates(s)) || (s == done && bb != b)
+					if !leaves {
+						continue
+					}
+					// an error exit: the edge taken when an error value is non-nil, from
+					// which every return reports that failure (break + single exit)
+					if ifi2 := blockIf(bb); ifi2 != nil {
+						if bo2, ok := ifi2.Cond.(*ssa.BinOp); ok && (bo2.Op == token.NEQ || bo2.Op == token.EQL) {
+							x, y := bo2.X, bo2.Y
+							if isNilConst(x) {
+								x, y = y, x
+							}
+							nonNilIdx := 0
+							if bo2.Op == token.EQL {
+								nonNilIdx = 1
+							}
+							if isNilConst(y) && isErrorType(x.Type()) && si == nonNilIdx {
+								if why := c.allReturnsFail(fn, s, bb, map[ssa.Value]bool{x: true}, map[*ssa.BasicBlock]bool{b: true}); why == "" {
+									continue
+								}
+							}
+						}
 					}
 					if s == done && bb != b {
 						bad = "the loop is left (break) at " + c.pos(bb.Instrs[len(bb.Instrs)-1].Pos()) + " before all elements are visited"
+					} else {
+						bad = "an edge leaves the loop to " + s.String() + " without exhausting it"
 					}
 				}
 			}
